@@ -219,6 +219,10 @@ def run_case(case):
                         vec[en].value = comp_dev.py_value(val) if isinstance(val, dict) else val
                 elif op[0] == "cs":
                     clients[op[1]][op[2]][op[3]].submit()
+                elif op[0] == "craw":
+                    # a message the client API would not build (a write naming an element the property does not have),
+                    # sent as it is on the client's control connection
+                    clients[op[1]].control_connection_handler.send_message(comp_codec.build(op[2]))
                 elif op[0] == "lagbatch":
                     # several driver operations back to back while the server->client direction of client ci's CONTROL
                     # connection lags behind its BLOB connection (a legitimate network schedule); then everything is delivered
@@ -366,7 +370,7 @@ def run_impl(case, outcome):
         case["kf_keys"] = ["two-connection-reordering"]
     if big or big_also:
         case["kf_keys"] = ["element-over-threshold"]
-    elif not any(op[0] in ("lagbatch", "burst") for op in case["ops"]):
+    elif not any(op[0] in ("lagbatch", "burst", "craw") for op in case["ops"]):
         # correspondence: the Lean deployment model (Model/Sys.lean), step by step from the observed state:
         # the observed next state must be one the model allows (any interleaving of control and BLOB connection)
         kinds = ["%s %s %s" % (not c.startswith("snoop"), c.startswith("snoop"), c == "net-also") for c in case["clients"]]
@@ -590,6 +594,41 @@ def gen_c06_subsets(rng, tier):
         done += 1
         yield {"op": "sys", "devices": devices, "clients": rng.choice([["net"], ["net", "snoop:0"]]), "frag": rng.choice(["1024", "1", "random"]),
                "frag_seed": rng.randrange(10 ** 6), "ops": ops, "oracles": ["C06", "C01"]}
+
+
+def gen_c06_misaddressed(rng, tier):
+    """a write that names an element its property does not have (ignored, with a warning) must not cost a LATER valid write to an
+    element of that name elsewhere - same device or another one - anything"""
+    n = 60 if tier == "thorough" else 16
+    done = 0
+    for _ in range(n * 8):
+        if done >= n:
+            break
+        devices = simple_devices(rng, rng.choice([1, 2]))
+        for d in devices:
+            for g in d["groups"]:
+                g["enabled"] = True
+                for v in g["vectors"]:
+                    v["enabled"] = True
+        vecs = [(di, merged_of(spec)["name"], v) for di, spec in enumerate(devices) for g in merged_of(spec)["groups"] for v in g["vectors"]
+                if v["kind"] in ("text", "number", "switch") and v.get("perm", "rw") != "ro" and all(e.get("enabled", True) for e in v["elements"])
+                and len({e["name"] for e in v["elements"]}) == len(v["elements"])]
+        pairs = [(a, b, en) for a in vecs for b in vecs if a is not b and a[2]["kind"] == b[2]["kind"]
+                 for en in [e["name"] for e in b[2]["elements"]] if en not in [e["name"] for e in a[2]["elements"]]]
+        pairs = [(a, b, en) for a, b, en in pairs
+                 if sum(1 for x in vecs if x[0] == b[0] and x[2]["name"] == b[2]["name"]) == 1]
+        if not pairs:
+            continue
+        a, b, en = rng.choice(pairs)
+        kind = b[2]["kind"]
+        val = {"text": "late", "number": "42", "switch": "On"}[kind]
+        tag = {"text": "Text", "number": "Number", "switch": "Switch"}[kind]
+        raw = {"cls": "indi.message.news.New%sVector" % tag, "kw": {"device": a[1], "name": a[2]["name"]},
+               "children": [{"cls": "indi.message.one_parts.One%s" % tag, "kw": {"name": en, "value": val}, "children": None}]}
+        ops = [["craw", 0, raw], ["cw", 0, b[1], b[2]["name"], {en: val}]]
+        done += 1
+        yield {"op": "sys", "devices": devices, "clients": ["net"], "frag": rng.choice(["1024", "1", "random"]), "frag_seed": rng.randrange(10 ** 6),
+               "ops": ops, "oracles": ["C06", "C01"]}
 
 
 def gen_c06_pending(rng, tier):
